@@ -278,7 +278,7 @@ func IsCompactDateShape(tm time.Time) bool {
 }
 
 var nodeTypes = map[reflect.Type]bool{
-	T(Node{}): true, T(FNode{}): true, T(Ping{}): true, T(Pong{}): true, T(ENode{}): true, T(SelfAny{}): true,
+	T(Node{}): true, T(FNode{}): true, T(Ping{}): true, T(Pong{}): true, T(ENode{}): true, T(SelfAny{}): true, T(MutA{}): true, T(MutB{}): true,
 }
 
 // Value generates a value of static type typ.
@@ -344,6 +344,15 @@ func (g *G) Value(typ reflect.Type) reflect.Value {
 				return g.ptrConts[typ][rapid.IntRange(0, len(g.ptrConts[typ])-1).Draw(g.T, g.name("ptrcontWhich"))]
 			}
 			p := reflect.New(et)
+			if k == 2 && et.Kind() == reflect.Slice && len(g.ptrConts[typ]) > 0 && g.Cfg.Share {
+				// a shorter slice of an earlier one's array: a different list at the same address
+				src := g.ptrConts[typ][rapid.IntRange(0, len(g.ptrConts[typ])-1).Draw(g.T, g.name("prefixOf"))].Elem()
+				if src.Len() > 1 {
+					p.Elem().Set(src.Slice(0, rapid.IntRange(1, src.Len()-1).Draw(g.T, g.name("prefixLen"))))
+					g.lbl("prefix-slice-behind-pointer")
+					return p
+				}
+			}
 			p.Elem().Set(g.Value(et))
 			if g.ptrConts == nil {
 				g.ptrConts = map[reflect.Type][]reflect.Value{}
